@@ -107,7 +107,7 @@ def run(chk):
     # difference to the remembered table falls below and above the threshold and new symbols rule the old table out
     def drift_input(nblocks):
         k = rng.choice([3, 5, 8, 12, 17, 24, 40, 80, 80])
-        pool = list(range(17 if (k <= 12 and rng.below(3) == 0) else 256))
+        pool = list(range(17 if (k <= 12 and rng.below(3) == 0) else 236))
         for i in range(len(pool) - 1, 0, -1):
             j = rng.below(i + 1)
             pool[i], pool[j] = pool[j], pool[i]
@@ -118,7 +118,7 @@ def run(chk):
         wts = draw()
         out, modes = bytearray(), []
         for b in range(nblocks):
-            mode = rng.choice(['same', 'same', 'jitter', 'swap', 'newsym', 'reshape']) if b else 'first'
+            mode = rng.choice(['same', 'same', 'jitter', 'swap', 'newsym', 'reshape', 'higher', 'higher']) if b else 'first'
             if mode == 'jitter':
                 wts = [w * rng.choice([0.7, 1, 1, 1.4]) for w in wts]
             elif mode == 'swap':
@@ -129,6 +129,13 @@ def run(chk):
                 syms[rng.below(k)] = spare[rng.below(6)]
             elif mode == 'reshape':
                 wts = draw()
+            elif mode == 'higher':
+                # one more, rare byte value above all earlier ones: the new table is longer than the remembered one while
+                # the code lengths of the shared symbols hardly move
+                if max(syms) < 255 and len(wts) == len(syms):
+                    syms = list(syms) + [min(255, max(syms) + 1 + rng.below(3))]
+                    wts = list(wts) + [min(wts) * 0.5 + 0.005]
+                    k = len(syms)
             modes.append(mode)
             tot = sum(wts)
             cum, acc = [], 0.0
@@ -142,6 +149,29 @@ def run(chk):
             out += (chunk * 11)[:131072]
         return bytes(out), modes
     drift = [drift_input(rng.range(2, 4)) for _ in range(30 if thorough else 12)]
+    # ... and with stable ranks: geometric weights over ascending byte values, so that the table of the next block differs
+    # from the remembered one in nothing but what the block changes -- one more rare byte value above all earlier ones
+    # (the new table is longer than the remembered one), one value fewer at the top (shorter), or nothing at all
+    def ladder_input(k, ratio, base, change):
+        import bisect
+        syms, wts = list(range(base, base + k)), [ratio ** i for i in range(k)]
+        out = bytearray()
+        for b in range(2):
+            if b == 1 and change == 'higher':
+                syms, wts = syms + [syms[-1] + 1 + rng.below(3)], wts + [wts[-1] * 0.5]
+            elif b == 1 and change == 'lower':
+                syms, wts = syms[:-1], wts[:-1]
+            tot = sum(wts)
+            cum, acc = [], 0.0
+            for w in wts:
+                acc += w / tot
+                cum.append(acc)
+            chunk = bytes(syms[min(len(syms) - 1, bisect.bisect_left(cum, rng.below(1 << 24) / float(1 << 24)))] for _ in range(rng.range(12000, 22000)))
+            out += (chunk * 11)[:131072]
+        return bytes(out), ['ladder %d' % k, change]
+    for k in ((6, 10, 17, 30, 60) if thorough else (6, 17, 30)):
+        for change in ('higher', 'lower', 'same'):
+            drift.append(ladder_input(k, rng.choice([0.5, 0.7, 0.85]) if k < 30 else 0.85, rng.choice([0, 40, 150]), change))
     dres = zh_par('codec', ['renc 1 %s 0' % hexs(d) for d, m in drift])
     ditems = []
     for (d, m), r in zip(drift, dres):
@@ -174,19 +204,27 @@ def run(chk):
             nskipped[0] += 1
             continue
         cl.append(' '.join('R' if ty == 1 else 'W' if ty == 0 else hexs(f[p + 3:p + 3 + body]) for (p, last, ty, size, body) in blocks))
-        cmeta.append((l, sum(1 for b in blocks if b[2] == 2)))
+        cmeta.append((l, sum(1 for b in blocks if b[2] == 2), ln))
     cl, cmeta = cl[:300 if thorough else 70], cmeta[:300 if thorough else 70]
     cr = model_run('litchain', cl, timeout=2400, jobs=14, per_job=1)
     nlit = 0
     kinds_seen = {}
-    for (l, nb), r in zip(cmeta, cr):
+    def keep_input(ln, line):
+        # the compressor command and the model's input line, so that the disagreement can be replayed
+        os.makedirs(REPLAY, exist_ok=True)
+        path = os.path.join(REPLAY, 'C02-literals-part-input.txt')
+        with open(path, 'w') as fh:
+            fh.write('# echo "<line 2>" | _build/cargo/release/zh codec   gives the frame; its blocks (R / W / body hex) are line 3:\n# echo "<line 3>" | _build/ocaml/driver litchain\n')
+            fh.write(ln + '\n' + line + '\n')
+        return path
+    for (l, nb, ln), r, line in zip(cmeta, cr, cl):
         w = (r or 'missing').split()
         if len(w) != nb + 1 or w[0] != 'ok':
-            chk.tie_broken('correspondence:literals-part', 'the model of the literals part could not follow the blocks of a real frame (%s): %s' % (l, (r or '')[:80]))
+            chk.tie_broken('correspondence:literals-part', 'the model of the literals part could not follow the blocks of a real frame (%s): %s; input kept in %s' % (l, (r or '')[:80], keep_input(ln, line)))
             break
         if any(x[0] != '1' for x in w[1:]):
             k = [x[0] for x in w[1:]].index('0')
-            chk.tie_broken('correspondence:literals-part', 'the model of the literals part (raw / new table / treeless decision, description, streams) does not write the literals section of compressed block %d of a real frame (%s; literals type %s)' % (k, l, w[1 + k][1:]))
+            chk.tie_broken('correspondence:literals-part', 'the model of the literals part (raw / new table / treeless decision, description, streams) does not write the literals section of compressed block %d of a real frame (%s; literals type %s); input kept in %s' % (k, l, w[1 + k][1:], keep_input(ln, line)))
             break
         nlit += nb
         for x in w[1:]:
